@@ -152,17 +152,34 @@ def safety_verdict(H, S, X):
 def gen_tasks(tier, seed):
     rng = random.Random(seed + 6)
     tasks = []
+    import itertools as _it
+    five = list(F.dag_edge_sets(5))
+    extra5 = [(f"dag5f_{i}", es5) for i, es5 in enumerate(rng.sample(five, 25 if tier == "quick" else 200))]
+    for name, es in extra5:
+        for _rep in range(3):
+            fl = I.dag_flow(es, rng, weights=(1, 1, 2, 3, 5), max_routes=4)
+            if fl:
+                tasks.append({"kind": "flowsafe", "name": name, "edges": I.with_flow(es, fl)})
     for name, es in I.dag_graphs(tier, rng, quick_n=8, thorough_n5=40):
         Xs = [("all", [list(e) for e in es])]
         if len(es) > 2:
             Xs.append(("subset", [list(e) for e in rng.sample(es, max(1, len(es) // 2))]))
         for xn, X in Xs:
             tasks.append({"kind": "dag", "name": name, "edges": es, "X": X, "xn": xn})
+        Gd = nx.DiGraph(es)
+        inner = [v for v in Gd.nodes() if Gd.in_degree(v) > 0 and Gd.out_degree(v) > 0]
+        if inner:
+            # paths may also start / end at inner nodes: safety is then relative to the enlarged route set
+            v, w = rng.choice(inner), rng.choice(inner)
+            tasks.append({"kind": "dag", "name": name, "edges": es, "X": Xs[0][1], "xn": "all+start", "starts": [v], "ends": []})
+            tasks.append({"kind": "dag", "name": name, "edges": es, "X": Xs[0][1], "xn": "all+end", "starts": [], "ends": [w]})
+            tasks.append({"kind": "dag", "name": name, "edges": es, "X": Xs[-1][1], "xn": "sub+start+end", "starts": [v], "ends": [w]})
         sps = I.contiguous_subpaths(es, 3)
         tasks.append({"kind": "dag_constraints", "name": name, "edges": es, "X": [[list(e) for e in rng.choice(sps)] for _ in range(2)]})
-        fl = I.dag_flow(es, rng)
-        if fl:
-            tasks.append({"kind": "flowsafe", "name": name, "edges": I.with_flow(es, fl)})
+        for _rep in range(6 if tier == "quick" else 20):
+            fl = I.dag_flow(es, rng, weights=(1, 1, 2, 3, 5), max_routes=4)
+            if fl:
+                tasks.append({"kind": "flowsafe", "name": name, "edges": I.with_flow(es, fl)})
     for name, es in I.digraphs(tier, rng, quick_n=10, thorough_n=80):
         Xs = [("all", [list(e) for e in es])]
         Xs.append(("subset", [list(e) for e in rng.sample(es, max(1, len(es) // 2))]))
@@ -208,7 +225,7 @@ def run_task(task):
         G.add_edges_from([tuple(e) for e in task["edges"]])
     if kind in ("dag", "dag_constraints"):
         res["functions"] = ["safetypathcovers.safe_paths", "safetypathcovers.safe_sequences", "safetypathcovers.find_all_bridges"]
-        H = fp.stDAG(G)
+        H = fp.stDAG(G, additional_starts=task.get("starts") or None, additional_ends=task.get("ends") or None)
         if kind == "dag":
             X = [tuple(e) for e in task["X"]]
             res["nontrivial"] += 1 if len(X) >= 2 else 0
